@@ -148,7 +148,7 @@ func (c *syncMap) deleteExpired(before time.Time) {
 	c.data.Range(func(key, value interface{}) bool {
 		cacheEntry := value.(*TraitEntry) //nolint // Panic on type assertion failure is fine here.
 		if cacheEntry.E != 0 && cacheEntry.E < beforeTS {
-			c.data.Delete(key)
+			c.deleteEntry(key, value)
 		}
 
 		return true
